@@ -249,6 +249,12 @@ func genBundle(g *Gen, o BundleOpts) *Bundle {
 	if nAux == 0 && o.MaxAux > 0 && strings.HasPrefix(o.Scenario, "collide-") && o.Scenario != "collide-nested" {
 		nAux = 1 // these shapes need an auxiliary document to import from
 	}
+	if o.Scenario == "relative-path-two-bases" {
+		nAux = 0 // the scenario brings its own three auxiliary documents
+	}
+	if nAux == 0 && o.MaxAux > 0 && (o.Scenario == "empty-mangled-names" || o.Scenario == "generated-name-equals-imported") {
+		nAux = 1
+	}
 	perm := g.r.Perm(len(auxPathPool))
 	for i := 0; i < nAux; i++ {
 		b.auxPaths = append(b.auxPaths, auxPathPool[perm[i]])
@@ -1049,6 +1055,54 @@ func (b *bgen) injectScenario(name string, rootDefs, paths M, aux map[string]M, 
 		}
 		paths["/scn/remote-siblings"] = M{"get": resp(M{"$ref": "#/definitions/remoteSiblings"})}
 		g.hit("scenario:remote-ref-siblings")
+	case "empty-mangled-names":
+		// names made of punctuation only (inside the alphabet of W) mangle to the empty string: an imported definition
+		// then gets the fall-back name oaiGen - flagged as generated although nothing collides -, an inline schema under
+		// such names has only empty candidate names
+		en := g.pick([]string{"{}", "?#", "[]", "~ ~"})
+		esc := urlFragEscape(jsonPtrEscape(en))
+		if len(b.auxPaths) > 0 && g.p(0.7) {
+			ap := b.auxPaths[0]
+			self := func() M { return M{"$ref": "#/definitions/" + esc} }
+			var sch M
+			switch g.n(3) {
+			case 0:
+				sch = M{"type": "object", "properties": M{"next": self(), "v": M{"type": "string"}}}
+			case 1:
+				sch = M{"type": "object", "properties": M{"list": M{"type": "array", "items": self()}}}
+			default:
+				sch = M{"type": "object", "properties": M{"v": M{"type": "string"}}}
+			}
+			aux[ap]["definitions"].(M)[en] = sch
+			rootDefs["emptyHolder"] = M{"type": "object", "properties": M{"b": M{"$ref": relRef("", ap) + "#/definitions/" + esc}, "n": M{"type": "integer"}}}
+			paths["/scn/empty"] = M{"get": resp(M{"$ref": "#/definitions/emptyHolder"})}
+			g.hit("scenario:empty-mangled-names-import")
+		} else {
+			en2 := g.pick([]string{"[]", "~/", "? ?"})
+			rootDefs[en] = M{"type": "object", "properties": M{en2: M{"type": "object", "properties": M{"z": M{"type": "string"}}}, "w": M{"type": "integer"}}}
+			paths["/scn/empty"] = M{"get": resp(M{"$ref": "#/definitions/" + esc})}
+			g.hit("scenario:empty-mangled-names-inline")
+		}
+	case "relative-path-two-bases":
+		// the same relative $ref string means two documents, depending on the document it is written in
+		aux["sub/aux.json"] = M{"definitions": M{"viaSub": M{"type": "object", "properties": M{"leaf": M{"$ref": "deeper/b.json#/definitions/leaf"}}}}}
+		aux["sub/deeper/b.json"] = M{"definitions": M{"leaf": M{"type": "object", "properties": M{"inSub": M{"type": "string"}}}}}
+		aux["deeper/b.json"] = M{"definitions": M{"leaf": M{"type": "object", "properties": M{"atRoot": M{"type": "integer"}}}}}
+		rootDefs["twoBases"] = M{"type": "object", "properties": M{
+			"direct": M{"$ref": "deeper/b.json#/definitions/leaf"},
+			"via":    M{"$ref": "sub/aux.json#/definitions/viaSub"}}}
+		paths["/scn/two-bases"] = M{"get": resp(M{"$ref": "#/definitions/twoBases"})}
+		g.hit("scenario:relative-path-two-bases")
+	case "generated-name-equals-imported":
+		// the name full flattening derives for an inline schema is the name of a definition imported in the same run
+		if len(b.auxPaths) == 0 {
+			return
+		}
+		ap := b.auxPaths[0]
+		aux[ap]["definitions"].(M)["barBaz"] = M{"type": "object", "properties": M{"imported": M{"type": "string"}}}
+		rootDefs["bar"] = M{"type": "object", "properties": M{"baz": M{"type": "object", "properties": M{"inline": M{"type": "integer"}}}}}
+		paths["/scn/bar"] = M{"get": resp(M{"$ref": "#/definitions/bar"}), "put": resp(M{"$ref": relRef("", ap) + "#/definitions/barBaz"})}
+		g.hit("scenario:generated-name-equals-imported")
 	case "unused-chain":
 		// definitions that become unused only after another one is removed, through names that need escaping
 		if g.p(0.5) {
